@@ -15,16 +15,17 @@ template <> struct Traits<SR> { enum { bounded = 0, buffer = 0 }; };
 template <> struct Traits<FR> { enum { bounded = 0, buffer = 0 }; };
 template <> struct Traits<BndR<SR>> { enum { bounded = 1, buffer = 0 }; };
 template <> struct Traits<BndR<FR>> { enum { bounded = 1, buffer = 0 }; };
+template <> struct Traits<BndLim<SR>> { enum { bounded = 1, buffer = 0 }; };
 
 template <typename R> static nop::Status<void> skip_(R* r, std::uint64_t n, std::true_type) { return r->Skip((std::size_t)n); }
 template <typename R> static nop::Status<void> skip_(R*, std::uint64_t, std::false_type) { return {}; }
 template <typename R, typename T>
 static nop::Status<void> read_block(R* r, T* arr, std::size_t len) { return r->Read(arr, arr + len); }
 
-template <typename Tag, int K, int N>
+template <typename Tag, int K, int N, int EXTRA = 0>
 static void reader_conf() {
-  std::uint8_t raw[N ? N : 1]; for (int i = 0; i < N; i++) raw[i] = nd8();
-  const std::uint8_t* src = N ? raw : raw + 1;
+  std::uint8_t raw[(N + EXTRA) ? (N + EXTRA) : 1]; for (int i = 0; i < N + EXTRA; i++) raw[i] = nd8();
+  const std::uint8_t* src = (N + EXTRA) ? raw : raw + 1;
   Step st[K]; for (int k = 0; k < K; k++) st[k] = draw_step();
   const std::size_t j = nd8();
   Rd<Tag> rd(src, N); auto* r = rd.raw();
@@ -155,6 +156,9 @@ RC(hq, PBR, 2, 6) RC(hq, BR, 2, 6) RC(hq, SR, 2, 6) RC(hq, FR, 2, 6) RC(hq, BndP
 RC(hq, PBR, 3, 3) RC(hq, BR, 3, 3) RC(hq, SR, 3, 3) RC(hq, FR, 3, 3) RC(hq, BndSR, 3, 3) RC(hq, PBR, 1, 0) RC(hq, BR, 1, 0) RC(hq, SR, 1, 0)
 RC(ht, PBR, 3, 10) RC(ht, BR, 3, 10) RC(ht, SR, 3, 10) RC(ht, FR, 3, 10) RC(ht, BndPBR, 3, 10) RC(ht, BndBR, 3, 10) RC(ht, BndSR, 3, 10) RC(ht, BndFR, 3, 10)
 RC(ht, PBR, 4, 6) RC(ht, BR, 4, 6) RC(ht, SR, 4, 6) RC(ht, FR, 4, 6)
+using LimPBR = BndLim<PBR>; using LimBR = BndLim<BR>; using LimSR = BndLim<SR>;
+#define RL(tier, Tag, K, N) extern "C" void tier##_reader_conf_##Tag##_k##K##_n##N(void) { reader_conf<Tag, K, N, 4>(); }
+RL(hq, LimPBR, 2, 5) RL(hq, LimBR, 2, 5) RL(hq, LimSR, 2, 5) RL(hq, LimPBR, 1, 3) RL(ht, LimPBR, 3, 6) RL(ht, LimBR, 3, 6)
 #define WC(tier, Tag, K, N) extern "C" void tier##_writer_conf_##Tag##_k##K##_n##N(void) { writer_conf<Tag, K, N>(); }
 WC(hq, PBW, 2, 8) WC(hq, BW, 2, 8) WC(hq, CBW, 2, 8) WC(hq, SW, 2, 8) WC(hq, FW, 2, 8) WC(hq, BndPBW, 2, 8) WC(hq, BndBW, 2, 8) WC(hq, BndCBW, 2, 8) WC(hq, BndSW, 2, 8)
 WC(hq, PBW, 3, 4) WC(hq, CBW, 3, 4) WC(hq, BW, 3, 4) WC(hq, CBW, 1, 16) WC(hq, BW, 1, 16)
